@@ -907,6 +907,7 @@ static void runLogFileFree(const std::vector<string>& hdr)
 //     P <ms>                pause (the AsyncLogging back-ends wake up every 5 ms)
 //     T <sec>               set the virtual clock
 //     X <k>                 destroy sink k (AsyncLogging: stop() in its destructor)
+//     O <k>                 create sink k again (same basename) after X <k>; its record numbering continues
 //   the remaining sinks are destroyed in index order at "end".  Sink k writes c16s<k>.* ; its records carry 'a'+k.
 static void runMulti(const std::vector<string>& hdr)
 {
@@ -962,6 +963,16 @@ static void runMulti(const std::vector<string>& hdr)
     else if (w[0] == "P" && w.size() >= 2) { usleep(static_cast<useconds_t>(atol(w[1].c_str())) * 1000); printf("P %s\n", w[1].c_str()); }
     else if (w[0] == "T" && w.size() >= 2) { g_vnow.store(atol(w[1].c_str())); printf("T %s\n", w[1].c_str()); }
     else if (w[0] == "X" && k < K && (lfs[k] || als[k])) { lfs[k].reset(); als[k].reset(); printf("X %zu\n", k); }
+    else if (w[0] == "O" && k < K && !lfs[k] && !als[k])
+    {
+      // a new sink with the SAME basename after the old one was destroyed (a restarted logger): within the same
+      // second it gets the same file name and must continue that file
+      char name[32];
+      snprintf(name, sizeof name, "c16s%zu", k);
+      if (kinds[k] == 'A') { als[k].reset(new muduo::AsyncLogging(name, roll, flush)); als[k]->start(); }
+      else lfs[k].reset(new muduo::LogFile(name, roll, false, flush, every));
+      printf("O %zu\n", k);
+    }
     else printf("BADOP %s\n", line.c_str());
     fflush(stdout);
   }
